@@ -11,7 +11,7 @@ for id in $ids; do
   if echo "$out" | grep -q "^VIOLATION"; then
     echo "$id $prop caught: $(echo "$out" | grep '  signature' | sed 's/  signature: //' | sort -u | head -3 | paste -sd' ')"; caught=$((caught+1))
   else
-    echo "$id $prop MISSED"; missed=$((missed+1))
+    if grep -q open_miss /verif/seeded/$id/meta.json; then echo "$id $prop missed (recorded as an open miss)"; else echo "$id $prop MISSED"; fi; missed=$((missed+1))
   fi
 done
 echo "caught=$caught missed=$missed does-not-apply=$noapply"
